@@ -7,7 +7,7 @@ def run_mutant(modname, file, old, new, quals=None):
     assert src.count(old) >= 1, 'pattern not found: ' + old
     tmp = tempfile.mkdtemp(prefix='pvmut_'); 
     try:
-        os.makedirs(os.path.dirname(tmp + '/' + file), exist_ok=True)
+        shutil.copytree('/repo/AutoCarver', tmp + '/AutoCarver')
         open(tmp + '/' + file, 'w').write(src.replace(old, new, 1))
         res = run_module(modname, quals, repo=tmp, verbose=False)
     finally:
